@@ -33,7 +33,8 @@ class N:
         if self.parent is None:
             return '/'
         sib = [x for x in self.parent.children if x.kind == self.kind and x.name == self.name]
-        return self.parent.path().rstrip('/') + '/%s[%d]' % (self.name if self.kind == 'elem' else 'text()', sib.index(self) + 1)
+        label = self.name if self.kind == 'elem' else {'text': 'text()', 'comment': 'comment()', 'pi': 'processing-instruction(%s)' % self.name}[self.kind]
+        return self.parent.path().rstrip('/') + '/%s[%d]' % (label, sib.index(self) + 1)
 
     def __repr__(self):
         return self.path()
@@ -45,7 +46,13 @@ def build(shape):
 
     def go(parent, spec):
         for s in spec:
-            if isinstance(s, str):
+            if isinstance(s, str) and s.startswith('?'):
+                nd = N('pi', s[1:], parent)
+                nd.stripped = False
+            elif isinstance(s, str) and s == '!':
+                nd = N('comment', '', parent)
+                nd.stripped = False
+            elif isinstance(s, str):
                 nd = N('text' if s in ('t', 'w') else 'elem', '' if s in ('t', 'w') else s, parent)
                 nd.stripped = s == 'w'      # a white-space text node that xsl:strip-space removes: still in the DOM (Xalan does not unlink it), but no pattern matches it
             else:
@@ -79,7 +86,7 @@ class CWorld:
         self.depth = 0
         self.calls = 0
         self.max_calls = 20000
-        self.T = {k: facts.enumconst.get(NS + 'XalanNode::' + k) for k in ('ELEMENT_NODE', 'TEXT_NODE', 'DOCUMENT_NODE')}
+        self.T = {k: facts.enumconst.get(NS + 'XalanNode::' + k) for k in ('ELEMENT_NODE', 'TEXT_NODE', 'DOCUMENT_NODE', 'COMMENT_NODE', 'PROCESSING_INSTRUCTION_NODE')}
         self.NONE = facts.enumconst.get(NS + 'XPath::eMatchScoreNone')
         self.HIT = facts.enumconst.get(NS + 'XPath::eMatchScoreQName')
         if None in self.T.values() or self.NONE is None or self.HIT is None:
@@ -126,6 +133,10 @@ class CWorld:
             return nd.kind == 'text' and not getattr(nd, 'stripped', False)
         if kind == 'doc':
             return nd.kind == 'doc'
+        if kind == 'comment':
+            return nd.kind == 'comment'
+        if kind == 'pi':
+            return nd.kind == 'pi' and (name == '' or nd.name == name)
         return False
 
     def hook(self, m, c):
@@ -138,7 +149,7 @@ class CWorld:
             if 'BorrowReturnMutableNodeRefList' in cls or 'GetCachedNodeList' in cls:
                 return NList()
             if 'GetCachedString' in cls:
-                return Obj('strguard', {})
+                return Obj('strguard', {'str': Obj('mstr', {'s': ''})})
             if 'ElementPrefixResolverProxy' in cls or 'XalanSimplePrefixResolver' in cls:
                 return 'RESOLVER'
             if cls.split('<')[0].endswith('XalanVector'):
@@ -154,6 +165,23 @@ class CWorld:
                     return tgt.fields['x']
                 if n == 'release':
                     v = tgt.fields['x']; tgt.fields['x'] = 0; return v
+            if isinstance(tgt, Obj) and tgt.cls == 'strguard' and n == 'get':
+                return tgt.fields['str']
+            if isinstance(tgt, Obj) and tgt.cls == 'mstr':
+                def sv(x):
+                    x = m.ev(x)
+                    return x.fields['s'] if isinstance(x, Obj) and x.cls == 'mstr' else x
+                if n == 'append' and len(a) == 1:
+                    tgt.fields['s'] += sv(a[0]); return tgt
+                if n == 'append' and len(a) == 2:
+                    x, y = sv(a[0]), sv(a[1])
+                    tgt.fields['s'] += (chr(y) * int(x)) if isinstance(x, int) and isinstance(y, int) else str(x)[:int(y)]
+                    return tgt
+                if n == 'assign' and len(a) == 1:
+                    tgt.fields['s'] = sv(a[0]); return tgt
+                if n in ('length', 'size'):
+                    return len(tgt.fields['s'])
+                raise Unsupported('string method ' + n)
             if isinstance(tgt, tuple) and tgt and tgt[0] == 'PAT' and n == 'getMatchScore':
                 nd = m.ev(a[0])
                 return self.HIT if isinstance(nd, N) and self.matches(tgt, nd) else self.NONE
@@ -171,7 +199,7 @@ class CWorld:
                     tgt.items.append(m.ev(a[0])); return 0
             if isinstance(tgt, N):
                 if n == 'getNodeType':
-                    return self.T[{'elem': 'ELEMENT_NODE', 'text': 'TEXT_NODE', 'doc': 'DOCUMENT_NODE'}[tgt.kind]]
+                    return self.T[{'elem': 'ELEMENT_NODE', 'text': 'TEXT_NODE', 'doc': 'DOCUMENT_NODE', 'comment': 'COMMENT_NODE', 'pi': 'PROCESSING_INSTRUCTION_NODE'}[tgt.kind]]
                 if n == 'getParentNode':
                     return tgt.parent or 0
                 if n == 'getPreviousSibling':
@@ -205,6 +233,17 @@ class CWorld:
                     s2 = m.ev(a[0])
                     if isinstance(s2, tuple) and s2 and s2[0] == 'GLOBAL':
                         s2 = {'s_textString': 'text()', 's_commentString': 'comment()', 's_slashString': '/'}.get(s2[1], s2[1])
+                    if isinstance(s2, Obj) and s2.cls == 'mstr':
+                        s2 = s2.fields['s']
+                    if isinstance(s2, str) and s2.startswith('comment'):
+                        return ('PAT', 'comment', '')
+                    if isinstance(s2, str) and s2.startswith('processing-instruction('):
+                        inner = s2[len('processing-instruction('):].rstrip(')')
+                        if inner == '':
+                            return ('PAT', 'pi', '')
+                        if len(inner) >= 2 and inner[0] == inner[-1] and inner[0] in '\'"':
+                            return ('PAT', 'pi', inner[1:-1])
+                        raise Fault('the pattern parser rejects %r: the argument of processing-instruction() has to be a literal' % s2)
                     if s2 == '/':
                         return ('PAT', 'doc', '')
                     if s2.startswith('text'):
@@ -242,6 +281,12 @@ class CWorld:
                 fl, bl = m.ev(a[0]), m.ev(a[1])
                 fl.items.extend(reversed(bl.items))
                 return 0
+        if k == 'OpCall' and c.get('op') == '=' and len(c['args']) == 2:
+            t0 = m.ev(c['args'][0])
+            if isinstance(t0, Obj) and t0.cls == 'mstr':
+                v = m.ev(c['args'][1])
+                t0.fields['s'] = v.fields['s'] if isinstance(v, Obj) and v.cls == 'mstr' else v
+                return t0
         if k == 'OpCall' and c.get('op') in ('*', '->') and len(c['args']) == 1:
             v = m.ev(c['args'][0])
             if isinstance(v, (NList, tuple)) or v == 'ECTX':
@@ -296,6 +341,7 @@ SHAPES = [
     [['a', ['b'], ['c'], ['b', ['b'], ['c', ['b']]], 't', ['b']]],
     [['a', ['a', ['a'], ['b']], ['b', ['a']], ['a']]],
     [['r', ['s', ['b'], ['b']], ['s', ['b'], 't', ['b'], ['b']]]],
+    [['r', '?p', '!', ['b'], '?q', '?p', '!', 't', ['s', '?p', '!']]],
 ]
 
 
